@@ -153,42 +153,23 @@ theorem C14.unflatten_fmts (m : Meta) (k l : Nat) (ids' : List RId) (hwf : m.wfB
     have : news[i] ∉ m.ids := hnew _ (List.getElem_mem hi)
     simp [Meta.fmtOrC, this]
 
-/-- **unflatten** of a tensor whose shape is authoritative: the inverse re-arrangement of ids and
-    shape, leaf default (full since /repo e4536c9) and mutability kept, surviving ranks keep their
-    format and the `levels + 1` new ranks are "C". -/
-theorem unflatten_meta (m : Meta) (k l : Nat) (s : List Sx) (ids' : List RId) (hwf : m.wfB = true)
-    (hshape : m.shape = some s) (hids : unflIds (l + 1) k m.ids = some ids')
+/-- **unflatten**: the inverse re-arrangement of ids and of the authoritative shape (none if the
+    operand's is only estimated; full since /repo COMMIT:C14-01), leaf default (e4536c9) and mutability
+    kept, surviving ranks keep their format and the `levels + 1` new ranks are "C". -/
+theorem unflatten_meta (m : Meta) (k l : Nat) (ids' : List RId) (hwf : m.wfB = true)
+    (hids : unflIds (l + 1) k m.ids = some ids')
     (hnew : ∀ r ∈ (ids'.drop k).take (l + 2), r ∉ m.ids) :
-    mUnflatten k (l + 1) s m = sUnflatten k (l + 1) m := by
+    mUnflatten k (l + 1) m = sUnflatten k (l + 1) m := by
   have hf := C14.unflatten_fmts m k l ids' hwf hids hnew
   unfold mUnflatten sUnflatten
-  rw [hids, hshape]
-  cases hu : unflShape (l + 1) k s with
-  | none => simp [hu]
-  | some s' => simp [hu, hf]
+  rw [hids]
+  simp only [hf]
 
-example : mUnflatten 0 1 [.cons (.n 4) (.cons (.n 5) .nil), .n 6]
+example : mUnflatten 0 1
     ⟨[.many ["M", "K"], .one "N"], some [.cons (.n 4) (.cons (.n 5) .nil), .n 6], 7, [.C, .U], true⟩ =
     some ⟨[.one "M", .one "K", .one "N"], some [.n 4, .n 5, .n 6], 7, [.C, .C, .U], true⟩ := by decide
-
-/-- **unflatten** of a tensor whose shape is only estimated: ids, default, formats and mutability
-    as documented *provided the code gets through* `_unflattenRankIdsShape`, which indexes the
-    reported (estimated) shape `rep` as if its entry were a tuple; the result then presents that
-    estimate as its declared shape (the statement claims nothing about the shape here). -/
-theorem unflatten_meta_estimated_partial (m : Meta) (k l : Nat) (rep s' : List Sx) (ids' : List RId)
-    (hwf : m.wfB = true) (hshape : m.shape = none) (hids : unflIds (l + 1) k m.ids = some ids')
-    (hrep : unflShape (l + 1) k rep = some s')
-    (hnew : ∀ r ∈ (ids'.drop k).take (l + 2), r ∉ m.ids) :
-    (mUnflatten k (l + 1) rep m).map (fun x => { x with shape := none }) = sUnflatten k (l + 1) m := by
-  have hf := C14.unflatten_fmts m k l ids' hwf hids hnew
-  unfold mUnflatten sUnflatten
-  rw [hids, hshape, hrep]
-  simp [hf]
-
-example : (mUnflatten 0 1 [.cons (.n 1) (.cons (.n 3) .nil)] ⟨[.many ["M", "K"]], none, 7, [.U], false⟩).map
-    (fun x => { x with shape := none }) = some ⟨[.one "M", .one "K"], none, 7, [.C, .C], false⟩ := by decide
-/-- the excluded class: an empty flattened rank estimates its shape as the integer 0 -/
-example : mUnflatten 0 1 [.n 0] ⟨[.many ["M", "K"]], none, 0, [.C], false⟩ = none := by decide
+example : mUnflatten 0 1 ⟨[.many ["M", "K"]], none, 7, [.U], false⟩ =
+    some ⟨[.one "M", .one "K"], none, 7, [.C, .C], false⟩ := by decide
 
 /-- **unflatten is the inverse of flatten on rank ids**: flattening `levels + 1` atomic ranks at
     depth `k` and unflattening `levels` times gives the id list back. -/
@@ -448,14 +429,16 @@ theorem flatten_coords_in_bounds_partial {π : Type} (f : Fib Int (AF π)) (lo1 
 example : (flat2 [((0 : Int), (⟨[((3 : Int), (1 : Int)), (4, 2)], 0, 5⟩ : AF Int)), (1, ⟨[(4, 3)], 0, 5⟩)]).map (·.1) =
     [(0, 3), (0, 4), (1, 4)] := by decide
 
-/-- **split** (uniform, no halo, absolute coordinates; `uSpec` is what C08's `uniform_spec` proves the
-    modelled splitter loop to compute) of a fiber whose range is `(0, S)`: every
+/-- **split** (uniform, no halo, absolute or relative coordinates; `uSpec` is what C08's `uniform_spec`
+    proves the modelled splitter loop to compute) of a fiber whose range is `(0, S)`: every
     partition coordinate lies inside `[0, S)` (the duplicated shape entry and the upper fiber's
-    range), every lower coordinate inside its partition's clipped range, which lies inside `[0, S)`. -/
-theorem split_coords_in_bounds_partial {π : Type} (step S : Int) (elems : Fib Int π) (hstep : 0 < step) (hS : 0 < S)
-    (p : Part π) (hp : p ∈ uSpec step 0 0 0 S false elems) :
+    range), every lower coordinate inside its partition's range — the clipped interval, shifted by the
+    partition start for `relativeCoords` (since /repo COMMIT:C14-03) — which lies inside `[0, S)`. -/
+theorem split_coords_in_bounds_partial {π : Type} (step S : Int) (rel : Bool) (elems : Fib Int π)
+    (hstep : 0 < step) (hS : 0 < S)
+    (p : Part π) (hp : p ∈ uSpec step 0 0 0 S rel elems) :
     (0 ≤ p.start ∧ p.start < S) ∧ (0 ≤ p.lo ∧ p.hi ≤ S) ∧ ∀ e ∈ p.elems, p.lo ≤ e.1 ∧ e.1 < p.hi := by
-  obtain ⟨P, hP, _, rfl⟩ := (mem_uSpec step 0 0 0 S false elems p).1 hp
+  obtain ⟨P, hP, _, rfl⟩ := (mem_uSpec step 0 0 0 S rel elems p).1 hp
   obtain ⟨⟨q, rfl⟩, h2, h3⟩ := (mem_uCands step 0 S hstep P).1 hP
   have hq : 0 ≤ q := by
     apply Int.le_of_lt_add_one
@@ -465,19 +448,35 @@ theorem split_coords_in_bounds_partial {π : Type} (step S : Int) (elems : Fib I
     rw [Int.mul_add, Int.mul_one, Int.mul_zero] at this
     omega
   have hP0 : 0 ≤ step * q := Int.mul_nonneg (Int.le_of_lt hstep) hq
-  refine ⟨⟨hP0, h3⟩, ?_, ?_⟩
-  · show 0 ≤ max (step * q) 0 ∧ min (step * q + step) S ≤ S
-    omega
-  · intro e he
-    have he' : e ∈ elems.filter (fun e => uMemb step 0 0 0 S (step * q) e.1) := he
-    rw [List.mem_filter] at he'
-    have := he'.2
+  have hmem : ∀ e ∈ elems.filter (fun e => uMemb step 0 0 0 S (step * q) e.1),
+      max (step * q) 0 ≤ e.1 ∧ e.1 < min (step * q + step) S := by
+    intro e he
+    have := (List.mem_filter.1 he).2
     simp only [uMemb, inWindow, Bool.and_eq_true, decide_eq_true_eq] at this
-    show max (step * q) 0 ≤ e.1 ∧ e.1 < min (step * q + step) S
     omega
+  cases rel with
+  | false =>
+    refine ⟨⟨hP0, h3⟩, ?_, ?_⟩
+    · show 0 ≤ max (step * q) 0 ∧ min (step * q + step) S ≤ S
+      omega
+    · intro e he
+      exact hmem e he
+  | true =>
+    refine ⟨⟨hP0, h3⟩, ?_, ?_⟩
+    · show 0 ≤ max (step * q) 0 - step * q ∧ min (step * q + step) S - step * q ≤ S
+      omega
+    · intro e he
+      have he' : e ∈ (elems.filter (fun e => uMemb step 0 0 0 S (step * q) e.1)).map
+          (fun e => (e.1 - step * q, e.2)) := he
+      obtain ⟨x, hx, rfl⟩ := List.mem_map.1 he'
+      have := hmem x hx
+      show max (step * q) 0 - step * q ≤ x.1 - step * q ∧ x.1 - step * q < min (step * q + step) S - step * q
+      omega
 
 example : (uSpec 2 0 0 0 4 false [((1 : Int), (10 : Int)), (3, 30)]).map (fun p => (p.start, p.lo, p.hi)) =
     [(0, 0, 2), (2, 2, 4)] := by decide
+example : (uSpec 2 0 0 0 4 true [((1 : Int), (10 : Int)), (3, 30)]).map (fun p => (p.start, p.elems.map (·.1), p.lo, p.hi)) =
+    [(0, [1], 0, 2), (2, [1], 0, 2)] := by decide
 
 /-- … **so active-range iteration equals occupancy iteration**: on an ascending fiber whose
     coordinates all lie inside `[lo, hi)`, `iterActive` presents exactly what is stored. -/
@@ -489,7 +488,7 @@ theorem active_iter_eq_occupancy {π : Type} (lo hi : Int) (elems : Fib Int π) 
   simp [this.1, this.2]
 
 example : iterActive 0 5 [((1 : Int), (10 : Int)), (3, 30)] = [(1, 10), (3, 30)] := by decide
-/-- (and a coordinate outside the range is what makes them differ: the `relativeCoords` finding) -/
+/-- (and a coordinate outside the range is what makes them differ) -/
 example : iterActive 2 4 [((1 : Int), (10 : Int))] = [] := by decide
 
 /-! ### lazily produced fibers -/
